@@ -118,22 +118,13 @@ type Parsed struct {
 }
 
 func guard(f func()) (p string) {
-	defer func() {
-		if r := recover(); r != nil {
-			p = fmt.Sprint(r)
-			if p == "" {
-				p = "panic"
-			}
-		}
-	}()
-	f()
-	return ""
+	return guardDesc(func() string { return "a call into the implementation" }, f)
 }
 
 func (e *Eco) Parse(s string) Parsed {
 	var out Parsed
 	t0 := time.Now()
-	out.Panic = guard(func() {
+	out.Panic = guardDesc(func() string { return fmt.Sprintf("%s NewVersion(%q)", e.Name, s) }, func() {
 		v, isNil, err := e.parse(s)
 		out.Val = v
 		out.OK = err == nil && !isNil
@@ -149,7 +140,7 @@ func (e *Eco) Parse(s string) Parsed {
 func (e *Eco) ParseRange(s string) Parsed {
 	var out Parsed
 	t0 := time.Now()
-	out.Panic = guard(func() {
+	out.Panic = guardDesc(func() string { return fmt.Sprintf("%s NewVersionRange(%q)", e.Name, s) }, func() {
 		v, isNil, err := e.parseR(s)
 		out.Val = v
 		out.OK = err == nil && !isNil
@@ -164,12 +155,12 @@ func (e *Eco) ParseRange(s string) Parsed {
 
 // Compare returns the raw int and a panic text.
 func (e *Eco) Compare(a, b any) (r int, p string) {
-	p = guard(func() { r = e.compare(a, b) })
+	p = guardDesc(func() string { return fmt.Sprintf("%s Compare(%q, %q)", e.Name, e.str(a), e.str(b)) }, func() { r = e.compare(a, b) })
 	return
 }
 
 func (e *Eco) Contains(rg, v any) (r bool, p string) {
-	p = guard(func() { r = e.contains(rg, v) })
+	p = guardDesc(func() string { return fmt.Sprintf("%s Contains(%q, %q)", e.Name, e.strR(rg), e.str(v)) }, func() { r = e.contains(rg, v) })
 	return
 }
 
